@@ -129,8 +129,13 @@ def validate(run, pid, label, logs, also=(), shard_of=None, overhead=OVERHEAD_MS
                     late.append((si, code, detail))
                     continue
                 script = scripts[si] if scripts is not None and si is not None else None
-                run.violation("%s:%s" % (code, re.sub(r"\s+", "_", detail)[:300]), "%s: %s" % (code, detail),
-                              {"type": "session", "script": script, "label": label})
+                rep = {"type": "session", "script": script, "label": label}
+                if script is not None and code in ("reply-depends-on-history", "improvements-depend-on-history"):
+                    # a memo violation needs the reference session of the same probe as well
+                    pid_ = [st["extra"]["probe"] for st in script if st["do"] == "go" and (st.get("extra") or {}).get("probe")]
+                    ref = [sc for sc in scripts if any(st["do"] == "go" and (st.get("extra") or {}).get("probe") in pid_ for st in sc)]
+                    rep["scripts"] = [ref[0], script] if ref and ref[0] is not script else [script]
+                run.violation("%s:%s" % (code, re.sub(r"\s+", "_", detail)[:300]), "%s: %s" % (code, detail), rep)
             else:
                 other[prop] = other.get(prop, 0) + 1
                 if os.environ.get("VERIF_DEBUG"):
@@ -170,10 +175,10 @@ def sample_session(run, script, evs):
 def replay_session(run, pid, spec):
     binary = vcommon.build_binary(False)
     h = vcommon.build_harness()
-    script = spec["script"]
-    plan(h, [script])
-    logs = [U.run_script(binary, script)]
-    validate(run, pid, "replay", logs, scripts=[script], binary=binary)
+    scripts = spec.get("scripts") or [spec["script"]]
+    plan(h, scripts)
+    logs = [U.run_script(binary, sc) for sc in scripts]
+    validate(run, pid, "replay", logs, shard_of=lambda i: 0, scripts=scripts, binary=binary)
     return run.finish()
 
 
